@@ -1,5 +1,5 @@
 #!/bin/sh
-# usage: tools/confirm_seed.sh <Cxx> [seed-dir] [extra check ids...]
+# usage: [SEED_NAME=Cxx-r2] tools/confirm_seed.sh <Cxx> [seed-dir] [extra check ids...]
 # Independently confirms a seeded property-breaking change: the patch applies to a pristine copy of
 # /repo's HEAD, the repository's suite still matches the baseline with it, the demonstration fails
 # with it and passes without it; then runs the owning check (quick tier) against the patched copy.
@@ -7,7 +7,7 @@
 # seeded/<id>/confirmation.txt.
 ID="$1"; SRC="${2:-/tmp/wt/$ID/seed}"
 HERE="$(cd "$(dirname "$0")/.." && pwd)"
-DST="$HERE/seeded/$ID"
+DST="$HERE/seeded/${SEED_NAME:-$ID}"
 mkdir -p "$DST"
 [ "$SRC" != "$DST" ] && cp "$SRC/patch.diff" "$SRC/demo.py" "$SRC/meta.json" "$DST/" 2>/dev/null
 SCR="$(mktemp -d /tmp/vfseed.XXXXXX)"
